@@ -17,11 +17,15 @@
         `k ≥ 1`) returns the inverse of every invertible well-formed square `A` (= `inverseSpec A`, two-sided);
         `Top.inv_m4ri_mathlib`: Mathlib's `(mat A)⁻¹`; `Top.inv_m4ri_any`: on ANY square `A` an invertible `T` with
         `T·A = rref A` (the C routine has no failure indication).
+  EXECUTABLE TOP LEVEL: `ET.invM4riTop L3 A` is the exact mirror of `mzd_inv_m4ri` (which passes k = 0: automatic k), compared bit
+  for bit with the library on every check and proved to return the inverse of every invertible A (`ET.invM4riTop_spec`, Mathlib form
+  `ET.invM4riTop_mathlib`); for a singular A it returns an invertible T with T*A = rref A (`ET.invM4riTop_any`).
 -/
 import M4riProofs.Trsm
 import M4riProofs.GaussOK
 import M4riProofs.MathlibSpec
 import M4riProofs.Top
+import M4riProofs.EchelonTop
 namespace M4ri.Props.C05
 open M4ri M4ri.BMat
 
@@ -86,5 +90,9 @@ theorem tri_inverse_value {U : BMat} (hU : U.WF) (hsq : U.ncols = U.nrows) (hut 
 #check @M4ri.BMat.G2.invM4ri_spec
 #check @M4ri.BMat.G2.invM4ri_eq_rref
 #check @M4ri.BMat.G2.invM4ri_mul_eq_rref
+
+#check @M4ri.BMat.ET.invM4riTop_spec
+#check @M4ri.BMat.ET.invM4riTop_mathlib
+#check @M4ri.BMat.ET.invM4riTop_any
 
 end M4ri.Props.C05
